@@ -33,10 +33,24 @@ class SnapRecorder(om.SqliteRecorder):
 
     def record_iteration(self, requester, data, metadata, **kwargs):
         model = self.problem.model
+        # System and solver recorders are called from inside a solve, where the vectors are in their scaled
+        # (dimensionless) state; problem and driver recorders from outside.  The snapshot is of the PHYSICAL
+        # values (what get_val means): raw * scaler + adder with the vector's own factors when it is scaled.
+        scaled = isinstance(requester, (om.Group, om.ExplicitComponent, om.ImplicitComponent)) or \
+            hasattr(requester, '_system')
+        scaled = scaled and bool(requester._recording_iter.stack)
         snap = {}
-        for kind, vec in (('input', model._inputs), ('output', model._outputs), ('residual', model._residuals)):
-            snap[kind] = {n: np.array(vec._abs_get_val(n), dtype=float).copy().tobytes()
-                          for n in vec._abs_iter()}
+        # (the input vector is kept physical: it is scaled only around a transfer)
+        for kind, vec, has in (('input', model._inputs, False),
+                               ('output', model._outputs, model._has_output_scaling),
+                               ('residual', model._residuals, model._has_resid_scaling)):
+            raw = np.array(vec.asarray(), dtype=float)
+            if scaled and has and vec._scaling:
+                scaler, adder = vec._scaling
+                raw = raw * scaler
+                if adder is not None:
+                    raw = raw + adder
+            snap[kind] = {n: raw[slice(*vec.get_range(n))].copy().tobytes() for n in vec._abs_iter()}
         coord = requester._recording_iter.get_formatted_iteration_coordinate()
         self.snaps.append({'coord': coord, 'req': requester, 'snap': snap,
                            'name': metadata.get('name') if isinstance(requester, om.Problem) else None})
